@@ -129,12 +129,21 @@ QueueWalk(K, q, ops, res, i) ==
                    /\ QueueWalk(K, QPop(q), ops, res, i + 1)
          [] OTHER -> r.r = "count" /\ r.c = QCount(q) /\ QueueWalk(K, q, ops, res, i + 1)
 
+\* the standard error table: number(), Into<&str>, Display and the Response impl agree with ScpiErrors
+ErrTableOk(o) ==
+  /\ Len(o) = Len(ErrTable) /\ TableWellFormed
+  /\ \A i \in 1..Len(o) :
+        /\ o[i].name = ErrTable[i].name /\ o[i].n = ErrTable[i].n /\ o[i].txt = ErrTable[i].txt
+        /\ o[i].disp = ErrTable[i].txt
+        /\ Decodes(o[i].resp, [t |-> "tup", items |-> <<IntResp(ErrTable[i].n), [t |-> "str", b |-> ErrTable[i].txt]>>])
+
 \* [ok, free] of one line
 Judge(r) ==
   CASE r.kind = "run" ->
          LET E == RunEnd(CfgOf(r.iface), <<>>, Room(r.w), r.in, r.obs) IN
          [ok |-> RunMonitors(r.in, r.w, r.obs) /\ E # {}, free |-> \A st \in E : st.free]
     [] r.kind = "runs" -> RunsOk(CfgOf(r.iface), <<>>, r.w, r.msgs, 1, r.obs, 1)
+    [] r.kind = "errtable" -> [ok |-> ErrTableOk(r.obs), free |-> FALSE]
     [] r.kind = "queue" -> [ok |-> QueueWalk(r.K, <<>>, r.ops, r.obs, 1), free |-> FALSE]
     [] r.kind = "procset" -> ProcSetJudge(r)
     [] r.kind = "runset" -> RunSetJudge(r)
